@@ -326,10 +326,10 @@ impl<T: BitRead> PackedRead for T {
             // 17.7
             (upper_bound, false)
         } else {
-            // 17.8
+            // 17.8, fragmented only if the length is not encoded as constrained whole number
             (
                 self.read_length_determinant(lower_bound_size, upper_bound_size)?,
-                true,
+                upper_bound >= LENGTH_64K,
             )
         };
 
